@@ -8,7 +8,7 @@
 (* filter by type).                                                         *)
 (*                                                                           *)
 (* Values (tagged records, never compared across kinds):                    *)
-(*   [k |-> "bool", v |-> b]   [k |-> "int", v |-> n]   [k |-> "void"]       *)
+(*   [k |-> "bool", b |-> b]   [k |-> "int", v |-> n]   [k |-> "void"]       *)
 (*   [k |-> "float", c |-> "fin", h |-> n]        the half-integer n/2       *)
 (*   [k |-> "float", c |-> "nan"|"negzero"|"inf"|"neginf", h |-> 0]          *)
 (*   [k |-> "string", cps |-> <<scalar values>>]                            *)
@@ -35,7 +35,7 @@
 EXTENDS Integers, Sequences, FiniteSets, TLC
 
 \* ------------------------------------------------------------------ values
-VBool(b)   == [k |-> "bool", v |-> b]
+VBool(b)   == [k |-> "bool", b |-> b]
 VInt(n)    == [k |-> "int", v |-> n]
 VFloat(h)  == [k |-> "float", c |-> "fin", h |-> h]
 VNaN       == [k |-> "float", c |-> "nan", h |-> 0]
@@ -163,7 +163,7 @@ FloatEq(a, b) ==
 RECURSIVE ValEq(_, _)
 ValEq(a, b) ==
   IF a.k # b.k THEN FALSE                                    \* different kinds are unequal
-  ELSE CASE a.k = "bool"   -> a.v = b.v
+  ELSE CASE a.k = "bool"   -> a.b = b.b
          [] a.k = "int"    -> a.v = b.v
          [] a.k = "string" -> a.cps = b.cps
          [] a.k = "void"   -> TRUE
